@@ -131,6 +131,14 @@ def build(rng, case):
         lines.append("</molecule>")
         case["_parts"] = True
         # the loader lists bonds in document order, the comparison is order-free
+    if not case.get("_parts") and case["s"] % 5 == 2 and bonds and " <bondArray>" in lines:
+        # the order of the two child arrays of a molecule carries no meaning: the bond array written ahead of the atom array
+        b0, b1 = lines.index(" <bondArray>"), lines.index(" </bondArray>")
+        block = lines[b0:b1 + 1]
+        del lines[b0:b1 + 1]
+        a0 = lines.index(" <atomArray>")
+        lines[a0:a0] = block
+        case["_bonds_first"] = True
     # the molecule inside the wrappers CML documents come in (no namespace declaration, as in the repository's own files)
     wrap = int(rng.integers(5))
     case["_wrap"] = ["molecule-is-root", "cml", "list", "cml/list", "molecule-in-molecule"][wrap]
@@ -302,6 +310,8 @@ def run_case(case, ctx):
     st.seen("document_wrapper", case.get("_wrap"))
     if case.get("_attribute_order"):
         st.count("documents_with_atom_attributes_in_another_order")
+    if case.get("_bonds_first"):
+        st.count("documents_with_the_bond_array_ahead_of_the_atom_array")
     if case.get("_parts") and bonds:
         st.count("documents_with_two_atom_arrays_and_bonds")
     if bonds:
@@ -320,6 +330,8 @@ def requirements(stats, tier):
     need = []
     if stats.get("loads_checked") < (1500 if tier == "quick" else 500000):
         need.append("too few loads observed: %d" % stats.get("loads_checked"))
+    if stats.get("documents_with_the_bond_array_ahead_of_the_atom_array") < (10 if tier == "quick" else 1000):
+        need.append("documents with the bond array ahead of the atom array: %d" % stats.get("documents_with_the_bond_array_ahead_of_the_atom_array"))
     if stats.get("documents_with_atom_attributes_in_another_order") < (50 if tier == "quick" else 5000):
         need.append("documents whose atom attributes are written in another order: %d" % stats.get("documents_with_atom_attributes_in_another_order"))
     if stats.nseen("document_wrapper_with_bonds") < 5:
